@@ -7,3 +7,7 @@ def check_gadget_codec(rep, factsR, pid):
 
 def check_gadget_group_ops(rep, cfgR, pid):
     return
+
+
+def check_gadget_elligator(rep, factsR, pid):
+    return
